@@ -190,7 +190,9 @@ func IntProps(propContainer map[string]object.PanObject) map[string]object.PanOb
 				self, other, err := checkIntInfixArgs(args, "**", object.NewPanInt(1))
 				if err == nil {
 					// exact integer power (math.Pow loses precision beyond 2^53)
-					if other.Value >= 0 && other.Value <= 64 {
+					// NOTE: powers of -1, 0 and 1 fit in int64 for any exponent
+					fitsAnyExp := self.Value >= -1 && self.Value <= 1
+					if other.Value >= 0 && (other.Value <= 64 || fitsAnyExp) {
 						exact := new(big.Int).Exp(big.NewInt(self.Value), big.NewInt(other.Value), nil)
 						if exact.IsInt64() {
 							// NOTE: Int's descendants also call this
